@@ -259,6 +259,7 @@ private:
     void ConstructMemoryLeakReport(MemLeakPeriod period);
 
     size_t sizeOfMemoryWithCorruptionInfo(size_t size);
+    bool sizeWithAccountingInformationOverflows(size_t size);
     MemoryLeakDetectorNode* getNodeFromMemoryPointer(char* memory, size_t size);
 
     char* reallocateMemoryAndLeakInformation(TestMemoryAllocator* allocator, char* memory, size_t size, const char* file, size_t line, bool allocatNodesSeperately);
